@@ -94,11 +94,11 @@ def check(rep, tier):
         if cfg["shape"][2] > 1:
             var = False        # pallets have no shelf term: no random vector
         key = (cfg["arr"], cfg["shape"], var, repr(np.asarray(cfg["k"]["s0"]).tolist()), cfg["seed_v"])       # everything the reference run depends on
-        cur = {"shape": cfg["shape"]}
+        cur = {"shape": cfg["shape"], "over": cfg["over"], "model": True}
         def ref(s, sv):
-            kk = (key, cur["shape"], s, sv)
+            kk = (key, cur["shape"], s, sv, repr(cur["over"]))
             if kk not in refs:
-                refs[kk] = reference(dict(cfg, shape=cur["shape"]), s, sv)
+                refs[kk] = reference(dict(cfg, shape=cur["shape"], over=cur["over"]), s, sv)
             return refs[kk]
         store = rng.choice([None, "all", "edge", [0, 2], "uniform_3", "random_2", "corner_random_1"])
         ops, coq_ops, obs = [], [], []
@@ -110,7 +110,17 @@ def check(rep, tier):
                     coq_ops.append("RecordRandom %s" % zlit(int(store.split("_")[-1])))
                 nops = rng.randint(1, 8)
                 for oi in range(nops):
-                    o = rng.choice(["seed", "seed", "seedv", "hshelf", "hint", "build", "run", "run", "reshape"]) if oi < nops - 1 else "run"
+                    o = rng.choice(["seed", "seed", "seedv", "hshelf", "hint", "build", "run", "run", "reshape", "config"]) if oi < nops - 1 else "run"
+                    if hi < 2 and nops >= 3 and oi == nops - 2:
+                        o = "config"          # always: some histories re-declare the configuration just before the last run
+                    if o == "config":
+                        # the configuration re-declared on the same object through the public configPath setter (other arrangement, or another vial
+                        # height): configuration of the NEXT run; the object model (model/FlakeObj.v) has no such step, so these histories are judged by
+                        # the fresh-object reference only
+                        cur["over"] = rng.choice([{"snowfall_parameters": {"vial_arrangement": "hexagonal"}}, {"snowfall_parameters": {"vial_arrangement": "square"}},
+                                                  {"snowfall_parameters": {"vial_arrangement": "square"}, "vial": {"geometry": {"height": 0.014}}}])
+                        S.configPath = impl.cfg_path(cur["over"]); ops.append(("configPath", cur["over"])); cur["model"] = False
+                        continue
                     if o == "seedv":
                         # the vial seed is configuration of the NEXT run (separate global numpy stream; not part of the object model)
                         S.seed_v = rng.choice([7, 8, 9]); ops.append(("seed_v", S.seed_v))
@@ -161,7 +171,7 @@ def check(rep, tier):
         nontriv = sum(1 for o in ops if o[0] == "run") >= 1 and len(ops) > 1
         rep.case(repr((key, store, ops)), nontrivial=nontriv, sample=dict(shape=cfg["shape"], variability=var, storeStates=store, history=ops) if hi < 4 else None)
         rep.count("variability" if var else "no-variability"); rep.count("ops", len(ops))
-        if all(o is not None for o in obs):
+        if cur["model"] and all(o is not None for o in obs):
             cases.append("(%s, %s, %s, %s, %s)" % (zlit(cfg["seed"]), zlit(N), coq_bool(var), coq_list(coq_ops), coq_list(obs)))
             meta.append((cfg, store, ops))
     # ---- history with controlled nucleation: run, edit the holding step IN PLACE (duration / rate; no setter involved), run again: the second run is
